@@ -34,6 +34,9 @@ CHECKS = {
  "C11": ("explicit-state BFS over container-operation histories against a three-valued slice-heap / finite-map reference model",
          "breadth-first search over histories of container operations (constructors, literals, views, every non-mutating and mutating operation the statement names, containers in containers, both key spellings); every successor replays the history on a fresh runtime; after every operation the printed form of every live value is compared with a possible-worlds heap model; states de-duplicated by canonical heap + observed layout",
          "the heap model is the trusted base; growth-dependent aliasing after append! is an explicit unspecified zone"),
+ "C13": ("bounded-exhaustive enumeration of JSON values and of token-sequence documents against an independent RFC 8259 recogniser/decoder with big-number semantics",
+         "values: boundary ints, every float with <=3 (quick) / <=4 significant digits x 10^[-28,25] with neighbours, all strings of <=3/<=4 symbols over a 33-symbol escape-class alphabet, all trees of depth<=3 width<=2 with every key insertion order, deep and wide shapes -- dumped through every dump entry point, checked valid / sorted / deterministic / decoding to the same data, and loaded back under every mode; documents: every token sequence of <=4 (quick) / <=5 tokens over a 31-token alphabet and every byte string of <=2 bytes, through load-string / load-bytes / load-message under all four (:string-numbers, :exact-integers) combinations, acceptance and decoded structure compared with the reference",
+         "the reference recogniser (no encoding/json) is the trusted base and has its own unit tests; lists read back as arrays; ill-formed UTF-8 compares as U+FFFD; numbers beyond float64 are unspecified outside :string-numbers"),
  "C14": ("bounded-exhaustive enumeration of schemas x inputs against a reference evaluator of the documented meaning",
          "all validators over 10 type names with constraint sequences to nesting depth 2 (plus every malformed schema in every embedding context) x an 86-value input alphabet including JSON-decoded and symbol-keyed twins, against a three-valued reference evaluator written from the docstrings; disagreements localised to the smallest disagreeing sub-term",
          "the reference evaluator is the trusted base; documented-silent zones are unspecified (only 'no panic, one of the three outcomes')"),
